@@ -6,6 +6,7 @@ package vh
 
 import (
 	"bytes"
+	"fmt"
 	"math"
 	"math/rand"
 	"path/filepath"
@@ -28,8 +29,8 @@ func genLatencies(r *rand.Rand, n int, shape int) []uint64 {
 			out[i] = uint64(math.Exp(r.NormFloat64()*1.5+14)) + 1
 		case 2: // constant
 			out[i] = 123456789
-		case 3: // few-valued
-			out[i] = []uint64{1e6, 40e6, 41e6, 3e9, 7}[r.Intn(2+n%4)]
+		case 3: // few-valued: filled in by fewValued below
+			out[i] = 0
 		case 4: // bimodal with a huge gap
 			if r.Intn(10) < 6 {
 				out[i] = uint64(1e6 + r.Int63n(1e5))
@@ -42,6 +43,64 @@ func genLatencies(r *rand.Rand, n int, shape int) []uint64 {
 			out[i] = uint64(i+1) * 1000
 		}
 	}
+	return out
+}
+
+// fewValued draws 2..5 distinct values with counts such that no reported quantile (50, 90, 95, 99) falls within
+// 3 % of n of a boundary between two values.  Inside that margin the estimator interpolates between the two
+// neighbouring clusters and breaks the rank bound - a genuine finding that is listed in known_findings.json and
+// reproduced by the fixed instance knownTwoCluster below, so the random generator stays clear of it.
+func fewValued(r *rand.Rand, n int) []uint64 {
+	vals := []uint64{7, 1e6, 40e6, 41e6, 3e9}
+	k := 2 + r.Intn(4)
+	if k > n {
+		k = n
+	}
+	r.Shuffle(len(vals), func(i, j int) { vals[i], vals[j] = vals[j], vals[i] })
+	vals = vals[:k]
+	sort.Slice(vals, func(i, j int) bool { return vals[i] < vals[j] })
+	cuts := map[int]bool{}
+	for len(cuts) < k-1 {
+		if n < 40 { // tiny sets: the absolute slack of one rank dominates, any split is fine
+			cuts[1+r.Intn(n-1)] = true
+			continue
+		}
+		f := r.Float64()
+		if (f > 0.03 && f < 0.47) || (f > 0.53 && f < 0.87) {
+			if c := int(f * float64(n)); c > 0 && c < n {
+				cuts[c] = true
+			}
+		}
+	}
+	var cs []int
+	for c := range cuts {
+		cs = append(cs, c)
+	}
+	sort.Ints(cs)
+	cs = append(cs, n)
+	out := make([]uint64, 0, n)
+	vi := 0
+	for i := 0; i < n; i++ {
+		for vi < len(cs)-1 && i >= cs[vi] {
+			vi++
+		}
+		out = append(out, vals[vi])
+	}
+	r.Shuffle(n, func(i, j int) { out[i], out[j] = out[j], out[i] })
+	return out
+}
+
+// knownTwoCluster is the fixed failing instance: 4885 samples of 1 ms and 5115 of 40 ms.  The median is 40 ms
+// (rank 5000 lies 115 ranks inside the upper cluster), the estimator reports a value between the two clusters.
+func knownTwoCluster() []uint64 {
+	out := make([]uint64, 10000)
+	for i := range out {
+		out[i] = 1e6
+		if i >= 4885 {
+			out[i] = 40e6
+		}
+	}
+	rand.New(rand.NewSource(4885)).Shuffle(len(out), func(i, j int) { out[i], out[j] = out[j], out[i] })
 	return out
 }
 
@@ -60,8 +119,22 @@ func TestDrv_C11(t *testing.T) {
 	var samples []any
 	for round := 0; round < rounds; round++ {
 		for _, n := range sizes {
-			for shape := 0; shape < 7; shape++ {
+			for shape := 0; shape < 8; shape++ {
 				lats := genLatencies(r, n, shape)
+				if shape == 3 {
+					if n == 1 {
+						lats[0] = 1e6
+					} else {
+						lats = fewValued(r, n)
+					}
+				}
+				shapeName := fmt.Sprint(shape)
+				if shape == 7 {
+					if round > 0 || n != 10000 {
+						continue
+					}
+					lats, shapeName = knownTwoCluster(), "known-two-cluster-4885-5115"
+				}
 				sorted := append([]uint64(nil), lats...)
 				sort.Slice(sorted, func(i, j int) bool { return sorted[i] < sorted[j] })
 				for order := 0; order < 3; order++ { // as drawn, sorted, reverse-sorted arrival
@@ -81,7 +154,7 @@ func TestDrv_C11(t *testing.T) {
 						m.Add(&vegeta.Result{Seq: uint64(i), Code: 200, Timestamp: time.Unix(1600000000, int64(i)), Latency: time.Duration(v)})
 					}
 					m.Close()
-					tr.Emit("Reset", KV{"n": n, "allequal": sorted[0] == sorted[n-1], "shape": shape, "order": order})
+					tr.Emit("Reset", KV{"n": n, "allequal": sorted[0] == sorted[n-1], "shape": shapeName, "order": order})
 					L := m.Latencies
 					tr.Emit("Summary", KV{"min": Big(uint64(L.Min)), "p50": Big(uint64(L.P50)), "p90": Big(uint64(L.P90)),
 						"p95": Big(uint64(L.P95)), "p99": Big(uint64(L.P99)), "max": Big(uint64(L.Max))})
